@@ -239,3 +239,16 @@ def run(facts, rep, tier):
         rep.ok("C17-R6", tk.def_ + "|looks-up-the-key-as-given", "graph.get_node_id(&key)", tk.loc)
     else:
         rep.violation("C17-R6", tk.def_ + "|looks-up-the-key-as-given", "GraphNodePointer::to_key does not look up the key it was given (`%s`): references expand another note or none" % t[:80], tk.loc)
+    # every existing note is a valid target: the looked-up id reaches the result unfiltered (an emptied note expands to nothing, it is not "missing")
+    from .common import ctx as _ctx, value_chain
+    ctk = _ctx(tk)
+    lk = [x for x in fb.walk(tk.body) if x.get("k") == "mcall" and (fb.callee(x) or "").endswith("::get_node_id")]
+    bad = [m_ for x in lk for m_ in value_chain(ctk, x) if m_["name"] in ("filter", "and_then", "take_if", "filter_map", "zip", "xor")]
+    if lk and not bad:
+        rep.ok("C17-R6", tk.def_ + "|every-existing-note-is-a-target", "get_node_id(..).map(pointer) without a filter", tk.loc)
+    else:
+        rep.violation("C17-R6", tk.def_ + "|every-existing-note-is-a-target", "the looked-up note passes through `.%s(..)` before it becomes a pointer: notes that fail the test (an empty note, "
+                      "a note with only front matter) are treated as missing and their references stay links instead of being replaced" % (bad[0]["name"] if bad else "?"), tk.loc)
+    rep.rule("C17-R7", "= C05-R7: only a paragraph that consists of exactly one reference is a block reference (a paragraph of two adjacent links is ordinary text and must not be expanded).")
+    from . import c05
+    c05.rule_r7(facts, rep, "C17-R7")
